@@ -45,10 +45,10 @@ type Box struct {
 	LagAt uint8 `json:"lag_only_at_node,omitempty"` // 0: every node may enter lag mode
 	// CampaignBy[t] lists the nodes that may campaign while their own term is t (i.e. for
 	// term t+1); a term without an entry is unrestricted.
-	CampaignBy   map[uint64][]int   `json:"campaign_only_by_nodes_at_term,omitempty"`
-	ConfVariants []uint16           `json:"-"` // nil: every conf-change variant
-	ConfNames    []string           `json:"conf_change_variants,omitempty"`
-	Restrictions []string           `json:"stated_restrictions,omitempty"`
+	CampaignBy   map[uint64][]int `json:"campaign_only_by_nodes_at_term,omitempty"`
+	ConfVariants []uint16         `json:"-"` // nil: every conf-change variant
+	ConfNames    []string         `json:"conf_change_variants,omitempty"`
+	Restrictions []string         `json:"stated_restrictions,omitempty"`
 }
 
 func (b *Box) finish() *Box {
